@@ -63,6 +63,9 @@ CHECKS = {
  "C20": ("exploration", "Go race detector (-race build of the full-stack workload), reports filtered to library frames and de-duplicated",
          "16 sessions per process x 3 (quick) / 20 (thorough) repetitions: concurrent senders, timed inbound scripts swept in 20 ms steps across both timer expiries, resend requests, peer re-logon storms, registrations and state queries in their own phases, Session.Stop, on a transport whose directions share no synchronisation. Any DATA RACE block with library frames in both stacks is a violation.",
          "The detector judges only executed, unordered pairs within its history window; evidence lists timer expiries seen and overlapping activity-kind pairs as a coverage proxy.", "DESIGN.md §5 C20"),
+ "C12": ("translation_validation", "translation validation by execution: fixgen (built from the working tree) run on shipped and mutated schemas; emitted package compiled, read back with go/parser and exercised by an XML-derived driver",
+         "Each accepted schema goes through three stages (compile; every constant / constructor signature / accessor signature and item index / member list compared with the harness's own XML and type-mapping reader; behavioural driver generated from the XML executed against the compiled package), plus regeneration determinism, output-directory independence (relative, nested, absolute), rejection of duplicate numbers/msgtypes and the shipped tests/fix44 package vs fresh generation as declaration multisets.",
+         "Sampled schemas (2 shipped + 10 derived quick / 150 thorough), not all schemas. Trusted base: harness XML reader, go/parser, the driver.", "DESIGN.md §3 C12"),
 }
 
 NOT_YET = {}
